@@ -588,6 +588,112 @@ def recognise_global_memo(model: Model, func: str) -> Optional[List[str]]:
     return problems
 
 
+def lossy_key_memo(model: Model, func: str) -> Optional[Tuple[int, str]]:
+    """A memo whose key ROUNDS an argument:   key = (.., round(x, n), ..) / int(x) / math.floor(x) with x a (component of a)
+    parameter;  if key in TABLE: return TABLE[key]  /  hit = TABLE.get(key);  value = f(.. x ..);  TABLE[key] = value.
+    Two different arguments that round to the same key share one entry while the value is computed from the argument as
+    given, so what a call returns depends on which of them was seen first.  Definite only when every piece is there: the
+    table outlives the call (module-level name or attribute of self), the key is used for a read that is returned and for a
+    store, and the stored value is computed from the un-rounded argument.  -> (line, description) or None."""
+    fi = model.funcs.get(func)
+    if fi is None or fi.is_module_body:
+        return None
+    fn = fi.node
+    params = {p for p in fi.params if p not in ("self", "cls")}
+    if not params:
+        return None
+    local_names = {n.id for n in ast.walk(fn) if isinstance(n, ast.Name) and isinstance(n.ctx, ast.Store)} | set(fi.params)
+    # locals that are plain components of a parameter:  lon, lat = lonlat ;  x = p[0]
+    derived: Dict[str, str] = {p: p for p in params}
+    for _ in range(3):
+        for n in ast.walk(fn):
+            if isinstance(n, ast.Assign) and len(n.targets) == 1:
+                t, v = n.targets[0], n.value
+                base = v.value if isinstance(v, ast.Subscript) else v
+                if isinstance(base, ast.Name) and base.id in derived:
+                    for x in ([t] if isinstance(t, ast.Name) else (t.elts if isinstance(t, ast.Tuple) else [])):
+                        if isinstance(x, ast.Name):
+                            derived.setdefault(x.id, derived[base.id])
+
+    def rounded_args(e: ast.AST) -> List[str]:
+        out = []
+        for c in ast.walk(e):
+            if isinstance(c, ast.Call) and c.args and core.src(c.func) in ("round", "int", "math.floor", "math.trunc", "floor", "trunc"):
+                a0 = c.args[0]
+                names = [x.id for x in ast.walk(a0) if isinstance(x, ast.Name) and x.id in derived]
+                # (int(x) of a resolution or an index is not a rounding of a continuous quantity: only round / floor count)
+                if names and core.src(c.func) in ("round", "math.floor", "floor"):
+                    out.extend(names)
+        return out
+    key_names: Dict[str, Tuple[ast.AST, List[str]]] = {}
+    for n in ast.walk(fn):
+        if isinstance(n, ast.Assign) and len(n.targets) == 1 and isinstance(n.targets[0], ast.Name):
+            ra = rounded_args(n.value)
+            if ra and isinstance(n.value, (ast.Tuple, ast.Call)):
+                key_names[n.targets[0].id] = (n, ra)
+    if not key_names:
+        return None
+
+    def table_of(e: ast.AST) -> Optional[str]:
+        if isinstance(e, ast.Attribute) and isinstance(e.value, ast.Name) and e.value.id == "self":
+            return core.src(e)
+        if isinstance(e, ast.Name) and e.id not in local_names and f"{fi.module}.{e.id}" in model.module_vars:
+            return e.id
+        return None
+    for kname, (kassign, rargs) in key_names.items():
+        stores, reads = [], []
+        for n in ast.walk(fn):
+            if isinstance(n, ast.Assign):
+                for t in n.targets:
+                    if isinstance(t, ast.Subscript) and isinstance(t.slice, ast.Name) and t.slice.id == kname and table_of(t.value):
+                        stores.append((n, table_of(t.value)))
+            if isinstance(n, ast.Subscript) and isinstance(n.ctx, ast.Load) and isinstance(n.slice, ast.Name) and n.slice.id == kname and table_of(n.value):
+                reads.append((n, table_of(n.value)))
+            if isinstance(n, ast.Call) and isinstance(n.func, ast.Attribute) and n.func.attr == "get" and n.args and isinstance(n.args[0], ast.Name) \
+                    and n.args[0].id == kname and table_of(n.func.value):
+                reads.append((n, table_of(n.func.value)))
+        for st_, tab in stores:
+            if not any(t2 == tab for _r, t2 in reads):
+                continue
+            # the stored value: a name bound to a call that receives the un-rounded argument (or the parameter it is a component of)
+            v = st_.value
+            vnames = {x.id for x in ast.walk(v) if isinstance(x, ast.Name)}
+            src_calls = [v] if isinstance(v, ast.Call) else []
+            for n in ast.walk(fn):
+                if isinstance(n, ast.Assign) and isinstance(n.value, ast.Call) and any(isinstance(x, ast.Name) and x.id in vnames for t in n.targets for x in ast.walk(t)):
+                    src_calls.append(n.value)
+            roots = {derived[a] for a in rargs}
+            # ... or, through the function's local variables, anything computed from it (a value that is computed from the ROUNDED
+            # quantity only does not count: names bound to an expression that contains the rounding are cut off)
+            flow: Dict[str, Set[str]] = {nm: {rt} for nm, rt in derived.items()}
+            for _ in range(6):
+                for n in ast.walk(fn):
+                    if isinstance(n, ast.Assign) and not rounded_args(n.value):
+                        got = set()
+                        for x in ast.walk(n.value):
+                            if isinstance(x, ast.Name) and x.id in flow:
+                                got |= flow[x.id]
+                        if got:
+                            for t in n.targets:
+                                for x in ast.walk(t):
+                                    if isinstance(x, ast.Name) and isinstance(x.ctx, ast.Store) and x.id not in derived:
+                                        flow.setdefault(x.id, set()).update(got)
+            if isinstance(v, ast.Name) and v.id in flow and v.id not in derived and (flow[v.id] & roots):
+                how = next((core.src(n.value)[:60] for n in ast.walk(fn) if isinstance(n, ast.Assign) and any(isinstance(t, ast.Name) and t.id == v.id for t in n.targets)), v.id)
+                return (kassign.lineno, f"`{kname} = {core.src(kassign.value)[:90]}` rounds `{sorted(set(rargs))[0]}`; `{core.src(st_)[:70]}` stores under it a value "
+                        f"computed (`{how}`) from the argument as given, and a hit in {tab} returns it: arguments that round to the same key "
+                        f"share the entry of whichever was seen first")
+            for c in src_calls:
+                if any(x is c for x in ast.walk(kassign)):
+                    continue
+                used = {derived[x.id] for a in list(c.args) + [k.value for k in c.keywords] for x in ast.walk(a) if isinstance(x, ast.Name) and x.id in derived}
+                if used & roots:
+                    return (kassign.lineno, f"`{kname} = {core.src(kassign.value)[:90]}` rounds `{sorted(set(rargs))[0]}`; `{core.src(st_)[:70]}` stores under it a value "
+                            f"computed by `{core.src(c)[:60]}` from the argument as given, and a hit in {tab} returns it: arguments that round to the same key "
+                            f"share the entry of whichever was seen first")
+    return None
+
+
 CURRENT_EFF = None      # effect summaries of the World built last (one per check run)
 
 
